@@ -68,7 +68,8 @@ CLAIMED.update({
         text='Coq theorems (props/C03.v): what the exhaustive search offers to its queue is exactly the enumerated feasible '
              'space minus what the documented pruning may skip (sound and complete), nothing is offered twice, and for '
              'scores in a total order the result is the top k of what was offered, best first, with no offered design '
-             'outside it scoring above the worst returned one. Correspondence of the exhaustive result on generated cases; '
+             'outside it scoring above the worst returned one; the same with the comparison regenerated from tbrmmscore.py '
+             '(Python < on the documented score tuple, lexicographic on NaN-free tuples). Correspondence of the exhaustive result on generated cases; '
              'brute-force optimality oracle over all 3^n assignments with the omission clause.',
         note=SEARCH_NOTE + ' Total order of scores = NaN-free score tuples (premise); ties skipped in the correspondence.',
         technique='Rocq/Coq proof (trace refinement of the nested loops, top-k of the bounded heap) + executed '
